@@ -190,19 +190,30 @@ def replay(obj):
 MANIFEST = {
     "technique": "Lean 4 trace-refinement proofs (state machines of the Rust code = history-level IEC definitions on every "
                  "trace prefix) + differential correspondence against the real function blocks on three routes",
-    "level_text": "Proved for every trace, every prefix, unbounded: TON/TOF/TP/CTU/CTD/CTUD/R_TRIG/F_TRIG/SR/RS step functions "
-                  "(pub structs and exec_* wrappers) equal the closed-form IEC definitions over the sampled history; ET <= PT, "
-                  "0 <= ET, ET non-decreasing while timing, no i64 overflow under a monotone clock, counters stay in range "
-                  "for all eight integer kinds (saturate, never wrap), edge detectors never fire on two consecutive calls, "
-                  "SR/RS dominance, instance independence (a call changes only the addressed instance; every instance's "
-                  "outputs equal those of its own sub-trace run alone). TP is proved only under the guard 'no rising edge "
-                  "of IN while a pulse is running' (c04_tp_trace_partial): the code restarts the pulse there "
-                  "(c04_tp_counterexample, known finding C04-tp-retrigger, replayed on the real code each run).",
+    "level_text": "Proved for every trace, every prefix, unbounded: the step functions of TON/TOF/TP/CTU/CTD/CTUD/R_TRIG/F_TRIG/"
+                  "SR/RS (pub structs and exec_* wrappers over instance variables) equal the closed-form IEC definitions over "
+                  "the sampled history (TON: time accumulated over the run of consecutive calls with IN; TOF: time since IN "
+                  "fell, Q until it reaches PT; CTU/CTD: saturated edge counts since reset/load; CTUD: clamped IEC body; "
+                  "edge detectors; SR/RS); ET <= PT and 0 <= ET in every state, ET non-decreasing while timing, no i64 "
+                  "overflow under a monotone non-negative clock, counters stay in range for all eight integer kinds "
+                  "(saturate, never wrap), edge detectors never fire on two consecutive calls and fire iff there is an edge, "
+                  "SR/RS dominance, instance independence (a call changes only the addressed instance; after any "
+                  "interleaving every instance holds what its own sub-trace alone produces). TP is proved only under the "
+                  "guard 'no rising edge of IN while a pulse is running' (c04_tp_trace_partial, c04_tp_exec_trace_partial, "
+                  "c04_tp_et_monotone_partial): there the code restarts the pulse (c04_tp_counterexample, "
+                  "c04_tp_exec_counterexample, c04_tp_et_decreases_counterexample; known finding C04-tp-retrigger, replayed "
+                  "on the real code through the pub struct and through an ST program on every run).",
     "level_note": "Trusted: Lean kernel + propext/Quot.sound/Classical.choice; the hand-written model (validated only by the "
-                  "differential run: ~100k FB calls per quick run through the pub structs, execute_builtin and generated ST "
-                  "programs); my reading of the IEC figures in Spec. Only tested, not proved: that the runtime's call "
-                  "binding (arguments -> instance variables -> outputs) and VariableStorage implement the modelled store. "
+                  "differential run: ~175k FB calls per quick run, 5.3M per thorough run, through the pub structs, "
+                  "execute_builtin and generated ST programs incl. nested wrapper FBs); my reading of IEC 61131-3 in Spec. "
+                  "Spec follows the runtime's documented diagrams (docs/specs/08 par. 5, asserted by fb_timers_full.rs / "
+                  "iec_timers.rs) where they differ from IEC Figure 15: ET returns to zero once a TOF delay has expired / a "
+                  "TP pulse has ended instead of holding PT (c04_documented_et_reset_example), and F_TRIG fires on a first "
+                  "call with CLK=FALSE. exec_ton stores the clamped ET, so its closed form is proved for traces in which PT "
+                  "does not rise between two consecutive calls with IN=TRUE (c04_ton_exec_guard_needed shows the guard is "
+                  "needed; the pub struct Ton needs no guard). Only tested, not proved: that the runtime's call binding "
+                  "(arguments -> instance variables -> bound outputs) and VariableStorage implement the modelled store. "
                   "SINT/USINT/UINT counters are unreachable from checked ST (E205) and are exercised through "
-                  "execute_builtin only. exec_ton closed form needs PT not rising inside a run (the wrapper stores the "
-                  "clamped ET, the pub struct does not; both behaviours are modelled and compared).",
+                  "execute_builtin only. Closed-form counter theorems assume PV within the kind's range (guaranteed by the "
+                  "typed Value).",
 }
